@@ -218,7 +218,7 @@ func RunW3Compile(plan, sched *simrt.Source, trace bool) *RunOut {
 	cfg := g.GenConfig(trace)
 	cfg.PMask, cfg.PProb = nil, 0 // single task: pre-emption points are irrelevant
 	nNames := g.Range(1, 4)
-	nOps := 1 + g.Intn(5)
+	nOps := 1 + g.Intn(deep(5, 4))
 	ver := 1
 	init := &compileOp{Class: txValid}
 	{
